@@ -48,6 +48,7 @@ fn main() {
         "key" => suite_table::run_key,
         "block" => suite_table::run_block,
         "table" => suite_table::run_table,
+        "tfile" => suite_table::run_tfile,
         "vfn" => suite_version::run_vfn,
         "dbhist" => suite_db::run_dbhist,
         "crash" => suite_crash::run_crash,
